@@ -256,106 +256,35 @@ def C08_4(ctx, facts):
 
 
 def C08_5(ctx, facts):
-    f = facts.unit(facts.method("rewind::Rewind", "Read", "poll_read"), expand=True)
-    ctx.touched(f)
-    mins = f.calls("std::cmp::min", "core::cmp::min")
-    # the two private cursor helpers (today `remaining` and `put_slice`) are spliced into the unit: the copy is the raw
-    # copy_from_nonoverlapping + cursor.advance pair, the free space is cursor.as_mut().len()
-    puts = [c for c in f.calls() if c.matches(r"copy_from_nonoverlapping$|copy_nonoverlapping$|copy_from_slice$")]
-    cadv = [c for c in f.calls() if c.matches(r"ReadBufCursor.*::advance$")]
-    advs = [c for c in f.calls() if norm(c.name).endswith("::advance") and "Bytes" in (c.t.get("argtys") or [""])[0]]
-    inner = f.calls("hyper::rt::Read::poll_read")
-    ctx.floor("Rewind::poll_read|min", len(mins), 1, "n = min(..)")
-    ctx.floor("Rewind::poll_read|put_slice", len(puts), 1, "copy into the caller's buffer")
-    ctx.floor("Rewind::poll_read|advance", len(advs), 1, "prefix.advance")
-    ctx.floor("Rewind::poll_read|inner-read", len(inner), 1, "read of the inner stream")
-    for c in mins:
-        ra = f.roots(c.args[0])
-        rb_ = f.roots(c.args[1])
-        ok = any(r.kind == "call" and r.site.matches(r"Bytes.*::len$|bytes::Bytes::len") for r in ra | rb_) and \
-            any(r.kind == "call" and r.site.matches(r"ReadBufCursor.*::as_mut$") for r in ra | rb_)
-        ctx.check(ok, "Rewind::poll_read|n-is-min", "n = min(prefix.len(), remaining(buf))", "n is computed from %s" % sorted(map(repr, sig(ra | rb_))), c.where())
-    mb = {c.bb for c in mins}
-    for c in puts:
-        # source = prefix[..n] (n the minimum above), amount = that slice's length, destination = the caller's cursor
-        rr = set()
-        for a_ in c.args:
-            rr |= f.roots(a_, through_calls=True)
-        ok = any(r.kind == "call" and r.site.bb in mb for r in rr) and any(r.kind == "call" and r.site.matches(r"Index.*RangeTo.*index$|index$") for r in rr) and \
-            any(r.kind == "call" and r.site.matches(r"ReadBufCursor.*::as_mut$") for r in rr)
-        ctx.check(ok, "Rewind::poll_read|copy-n", "exactly prefix[..n] is copied into the caller's cursor", "copied slice roots %s" % sorted(map(repr, sig(rr))), c.where())
-    ctx.floor("Rewind::poll_read|cursor-advance", len(cadv), 1, "advance of the caller's cursor by the copied amount")
-    for c in cadv:
-        rr = f.roots(c.args[1], through_calls=True)
-        ok = any(r.kind == "call" and r.site.bb in mb for r in rr)
-        ctx.check(ok, "Rewind::poll_read|cursor-advance-n", "the caller's cursor is advanced by the number of bytes copied (the length of prefix[..n])", "cursor advance roots %s" % sorted(map(repr, sig(rr))), c.where())
-    for c in advs:
-        rr = f.roots(c.args[1], through_calls=False)
-        ok = any(r.kind == "call" and r.site.bb in mb for r in rr)
-        ctx.check(ok, "Rewind::poll_read|advance-n", "the prefix is advanced by the same n that was copied", "advance amount roots %s" % sorted(map(repr, rr)), c.where())
-    # store-back of a non-empty remainder
-    stores = []
-    for b in sorted(f.live):
-        for s in f.stmts(b):
-            if s["k"] == "assign" and s["p"]["p"] and any(isinstance(e, dict) and e.get("n") == "prefix" for e in s["p"]["p"]) and s["r"]["k"] == "use":
-                stores.append((b, s))
-    some_stores = []
-    for (b, s) in stores:
-        d = f.unique_def(op_place(s["r"]["o"])["l"]) if op_place(s["r"]["o"]) else None
-        if d and d[0] == "stmt" and d[3]["r"].get("v") == "Some":
-            some_stores.append(b)
-    ctx.floor("Rewind::poll_read|store-back", len(some_stores), 1, "store-back of the remaining prefix")
-    is_empty_false = L_call(f, ("bytes::Bytes::is_empty", "bytes::bytes::Bytes::is_empty"), False)
-    for adv in advs:
-        # from the advance, on the edge !prefix.is_empty(), the store-back must happen before returning
-        edges = [(a, b2) for (a, b2, lab) in f.edges() if lab is not None and is_empty_false(lab) and f.dominates(adv.bb, a)]
-        if not edges:
-            ctx.undecided("Rewind::poll_read|remainder-kept", "no `!prefix.is_empty()` test after the advance", adv.where())
-            continue
-        for (a, b2) in edges:
-            ok, w = f.must_pass(b2, f.returns, set(some_stores))
-            ctx.check(ok, "Rewind::poll_read|remainder-kept", "a non-empty remainder of the prefix is stored back before returning (no byte is lost)",
-                      "a non-empty remainder can be dropped", f.where(a), f.path_desc(w))
-    # the inner stream is read only when no prefix remains
-    takes = f.calls("std::option::Option::take", "core::option::Option::take")
+    """Replaying the sniffed prefix: decision table of Rewind::poll_read (rewindtable.py), plus - when the crate has its own cursor
+    helpers - what those two primitives do."""
+    import rewindtable
+    rewindtable.table(ctx, facts)
+    ps = facts.fn("rewind::put_slice", required=False)
+    rm = facts.fn("rewind::remaining", required=False)
+    if ps is not None:
+        ctx.touched(ps)
+        u = facts.unit(ps, expand=True)
+        copies = [c for c in u.calls() if c.matches(r"copy_from_nonoverlapping$|copy_nonoverlapping$|copy_from_slice$")]
+        advs = [c for c in u.calls() if c.matches(r"ReadBufCursor.*::advance$")]
+        ctx.floor("put_slice|copy", len(copies), 1, "raw copy into the cursor")
+        ctx.floor("put_slice|advance", len(advs), 1, "advance of the cursor")
+        lens = lambda rr: any(r.kind == "call" and r.site.matches(r"<impl \[T\]>::len$|slice.*::len$") and any(x.kind == "arg" and x.desc.startswith("slice") for x in u.roots(r.site.args[0])) for r in rr)
+        for c in copies:
+            rr = set()
+            for a_ in c.args:
+                rr |= u.roots(a_, through_calls=True)
+            ok = lens(rr) and any(r.kind == "arg" and r.desc.startswith("slice") for r in rr) and any(r.kind == "call" and r.site.matches(r"ReadBufCursor.*::as_mut$") for r in rr)
+            ctx.check(ok, "put_slice|copies-the-slice", "put_slice copies exactly slice.len() bytes of the slice into the cursor's free space", "copy roots %s" % sorted(map(repr, sig(rr)))[:8], c.where())
+        for c in advs:
+            rr = u.roots(c.args[1], through_calls=True)
+            ctx.check(lens(rr), "put_slice|advances-by-len", "the cursor is advanced by slice.len(), the number of bytes copied", "advance roots %s" % sorted(map(repr, sig(rr)))[:8], c.where())
+    if rm is not None:
+        ctx.touched(rm)
+        rr = rm.roots({"l": 0, "p": []})
+        ok = any(r.kind == "call" and r.site.matches(r"<impl \[T\]>::len$|slice.*::len$") for r in rr) and any(r.kind == "call" and r.site.matches(r"ReadBufCursor.*::as_mut$") for r in rr)
+        ctx.check(ok, "remaining|free-space", "remaining() is the length of the cursor's free space", "remaining() roots %s" % sorted(map(repr, sig(rr)))[:6], rm.where())
 
-    def no_prefix(lab):
-        if lab.kind == "variant" and lab.variants == {"None"}:
-            s = f.call_defining(lab.place["l"])
-            return s is not None and s.bb in {t.bb for t in takes}
-        if lab.kind == "bool" and lab.cond.kind == "call" and lab.cond.site.matches(r"Bytes.*::is_empty$") and lab.value is True:
-            return True
-        return False
-
-    for c in inner:
-        ok, w = f.guarded(c.bb, no_prefix)
-        ctx.check(ok, "Rewind::poll_read|inner-after-prefix", "the live stream is read only when the prefix is absent or empty (replayed bytes come first, in order)",
-                  "the live stream can be read while prefix bytes remain", c.where(), f.path_desc(w))
-        fwd_ok = all(any(r.kind == "arg" and getattr(r, "index", None) == i + 1 for r in f.roots(c.args[i])) for i in (1, 2))
-        ctx.check(fwd_ok, "Rewind::poll_read|inner-args", "cx and buf are passed on unchanged", "inner read arguments are not the method's own cx / buf", c.where())
-    # once replayed bytes sit in the caller's cursor the call must report them: a further read of the live stream in the
-    # same call could answer Pending (or an error), and callers discard the cursor contents on anything but Ready(Ok)
-    for c in puts:
-        pth = None
-        for i2 in inner:
-            pth = pth or f.path(c.bb, [i2.bb])
-        ctx.check(pth is None, "Rewind::poll_read|no-live-read-after-replay", "after copying prefix bytes the call returns without touching the live stream",
-                  "after copying prefix bytes the live stream is read in the same call: if it answers Pending the replayed bytes are lost", c.where(), f.path_desc(pth))
-        after = f.reach([c.bb])
-        rets = [(k, b, x) for (k, b, x) in assigns_to_return(f, after)]
-        ok = bool(rets) and all(k == "stmt" and x["r"]["k"] == "agg" and x["r"].get("v") == "Ready" for (k, b, x) in rets)
-        ctx.check(ok, "Rewind::poll_read|replay-reports-ready", "a call that replayed prefix bytes returns Ready(..) built on the spot",
-                  "a call that replayed prefix bytes can return something other than a literal Ready(..)", c.where())
-    # Ready(Ok) after copying; Rewind::new stores inner and Some(prefix)
-    new = facts.unit(facts.fn("rewind::Rewind::new"))
-    for (b, i, s) in new.aggregates("rewind::Rewind"):
-        r = s["r"]
-        ops = dict(zip(r["fields"], r["ops"]))
-        ri = new.roots(ops["inner"])
-        rp = new.roots(ops["prefix"])
-        ctx.check(any(x.kind == "arg" and x.desc == "inner" for x in ri) and any(x.kind == "arg" and x.desc == "prefix" for x in rp), "Rewind::new|stores-both",
-                  "Rewind::new stores the stream and Some(prefix)", "Rewind::new roots %s / %s" % (sorted(map(repr, ri)), sorted(map(repr, rp))), new.where(b))
-    fwd.E_FWD(ctx, facts, only=["rewind::Rewind"], min_count=5)
 
 
 def C08_6(ctx, facts):
